@@ -857,3 +857,84 @@ def gen_hyper_scene(rng, kind=None):
         return {'kind': kind, 'shapes': [rect_poly(b) for b in boxes], 'junction': j2, 'fixed': fixed,
                 'terms': terms, 'rev': [1 if rng.chance(1, 4) else 0 for _ in terms], 'opt': opt, 'pen': pen, 'buf': buf, 'nudge': nudge}
     return None
+
+
+# ------------------------------------------------------------------------------------------ selective-reroute test (C06 / C04 classifier)
+def selective_reroute_flags(poly, start, end, conndist):
+    """Float twin of Router::markPolylineConnectorsNeedingReroutingForDeletedObstacle (router.cpp) for ONE obstacle (its polygon
+    before it was moved / deleted) and one polyline connector (route ends start/end, cached route length conndist): does some edge's
+    estimate fall below conndist?  Mirrors the code as written, including (i) the reflection formula x = (b c + a d)/(b + d) being used
+    whatever the signs of b and d, (ii) `start`/`end` being overwritten by their rotated images in the branch for sloped edges and then
+    reused for the following edges."""
+    sx, sy = float(start[0]), float(start[1])
+    ex, ey = float(end[0]), float(end[1])
+    n = len(poly)
+    for i in range(n):
+        p1 = (float(poly[i][0]), float(poly[i][1])); p2 = (float(poly[(i + 1) % n][0]), float(poly[(i + 1) % n][1]))
+        vertical = False
+        if p1[1] == p2[1]:
+            offy = p1[1]; a = sx; b = sy - offy; c = ex; d = ey - offy
+            mn, mx = min(p1[0], p2[0]), max(p1[0], p2[0])
+        elif p1[0] == p2[0]:
+            vertical = True
+            offy = p1[0]; a = sy; b = sx - offy; c = ey; d = ex - offy
+            mn, mx = min(p1[1], p2[1]), max(p1[1], p2[1])
+        else:
+            npx, npy = p2[0] - p1[0], p2[1] - p1[1]
+            nsx, nsy = sx - p1[0], sy - p1[1]
+            nex, ney = ex - p1[0], ey - p1[1]
+            theta = 0 - math.atan2(npy, npx)
+            cosv, sinv = math.cos(theta), math.sin(theta)
+            r2x = cosv * npx - sinv * npy
+            sx, sy = cosv * nsx - sinv * nsy, cosv * nsy + sinv * nsx          # overwrites start / end, as the C++ does
+            ex, ey = cosv * nex - sinv * ney, cosv * ney + sinv * nex
+            offy = 0.0; a = sx; b = sy - offy; c = ex; d = ey - offy
+            mn, mx = min(0.0, r2x), max(0.0, r2x)
+        if (b + d) == 0:
+            d = d * -1
+        if b == 0 and d == 0:
+            if (a < mn and c < mn) or (a > mx and c > mx):
+                x = a
+            else:
+                continue
+        else:
+            x = ((b * c) + (a * d)) / (b + d)
+        x = min(mx, max(mn, x))
+        # xp is built from the ORIGINAL p1, p2 test (p1.x == p2.x), in the current (possibly rotated) frame of start / end
+        xp = (offy, x) if vertical else (x, offy)
+        est = math.hypot(sx - xp[0], sy - xp[1]) + math.hypot(xp[0] - ex, xp[1] - ey)
+        if est < conndist:
+            return True
+    return False
+
+
+def polyline_length(pts):
+    return sum(math.hypot(pts[i][0] - pts[i + 1][0], pts[i][1] - pts[i + 1][1]) for i in range(len(pts) - 1))
+
+
+def reroute_test_silent(ops_between, trans, shapes_before, route):
+    """classifier predicate of the known finding selective_reroute_not_flagged: for every shape moved / resized / deleted by the ops
+    between two dumps, the selective-reroute test as coded (twin above, with the polygon the shape had when the router processed the
+    change and the real length of the unchanged route) flags nothing.  shapes_before: {id: poly} at the previous dump.  With
+    transactions on, the router sees each changed shape once, with its polygon at the previous dump; with transactions off every op is
+    processed on its own, with the polygon left by the ops before it.  Returns None if no shape left its place (not this finding)."""
+    L = polyline_length(route)
+    start, end = route[0], route[-1]
+    cur = {i: list(P) for i, P in shapes_before.items()}
+    tested = 0
+    seen = set()
+    for o in ops_between:
+        if o[0] in ('M', 'T', 'D') and o[1] in cur:
+            old = cur[o[1]] if not trans else shapes_before.get(o[1])
+            if old is not None and not (trans and o[1] in seen):
+                seen.add(o[1])
+                tested += 1
+                if selective_reroute_flags(old, start, end, L):
+                    return False
+        if o[0] in ('A', 'T'):
+            cur[o[1]] = list(o[2])
+        elif o[0] == 'M' and o[1] in cur:
+            cur[o[1]] = [(x + o[2], y + o[3]) for x, y in cur[o[1]]]
+        elif o[0] == 'D':
+            cur.pop(o[1], None)
+    return True if tested else None
